@@ -435,16 +435,9 @@ func (e *Encoder) normalizedListSyntax(resource rdfdescription.AnonResource) (rd
 		for predicate, statements := range statementsByPredicate {
 			switch predicate {
 			case rdfiri.Type_Property:
-				if len(statements) != 1 {
-					return nil, false
-				}
-
-				s0, ok := statements[0].(rdfdescription.ObjectStatement)
-				if !ok {
-					return nil, false
-				} else if s0.Object != rdfiri.List_Class {
-					return nil, false
-				}
+				// the collection syntax has no place for an explicit type statement (not even rdf:List): it
+				// would be dropped
+				return nil, false
 			case rdfiri.First_Property:
 				if len(statements) != 1 {
 					return nil, false
